@@ -2,6 +2,7 @@
 
 from __future__ import annotations
 
+import re
 from dataclasses import dataclass, field
 from typing import Any, Dict, List, Optional, Tuple
 
@@ -36,6 +37,7 @@ class Style:
     proto_late: bool = False  # the `proto` statement is the LAST statement of the file instead of the first
     crlf: bool = False  # lines end in CR LF (a file written on Windows)
     join_statements: bool = False  # `a = 1; b = 2` on one line after a semicolon (needs semicolons all/mixed)
+    op_spacing: bool = False  # blanks around the operators and the `=` of integer constants vary: `A-1`, `A -1`, `A- 1`, tabs
 
 
 # one-line comment texts: each is harmless in a schema and must stay harmless in the generated C / Go / Python
@@ -62,6 +64,10 @@ SPICY_COMMENTS = [
     "vertical \x0b tab and separators \x1c \x1d \x1e",
     "next line \x85 and line \u2028 paragraph \u2029 separators",
 ]
+
+
+_OP = re.compile(r" ([-+*/]) ")
+_OP_SPELLINGS = [" o ", "o", " o", "o ", "\to\t", "  o", "o  "]
 
 
 @dataclass
@@ -231,7 +237,12 @@ def _render_item(em: _Emitter, it: Any, depth: int) -> None:
         em.write(ind + "const ")
         em.mark("def", it, it.name)
         rhs = it.text if it.text is not None else fmt_value(it.value, em.style.hex_numbers and isinstance(it.value, int) and not isinstance(it.value, bool))
-        em.write(" = " + rhs + em.semi())
+        eq = " = "
+        if em.style.op_spacing and isinstance(it.value, int) and not isinstance(it.value, bool):
+            # blanks are insignificant between tokens: every spelling denotes the same expression
+            rhs = _OP.sub(lambda mo: _OP_SPELLINGS[em.pick(len(_OP_SPELLINGS))].replace("o", mo.group(1)), rhs)
+            eq = ["=", " = ", " =", "= ", "\t=\t"][em.pick(5)]
+        em.write(eq + rhs + em.semi())
         em.nl()
     elif isinstance(it, Alias):
         _comment(em, depth, f"alias {it.name}")
